@@ -33,9 +33,32 @@ type pkg struct {
 	consts map[string]constant.Value
 }
 
+// extractErr is what a table group raises when a declaration is not in the expected shape.
+type extractErr string
+
+// inGroup is set while a table group runs: its failure is contained (see main).
+var inGroup bool
+
 func fatalf(f string, a ...any) {
+	if inGroup {
+		panic(extractErr(fmt.Sprintf(f, a...)))
+	}
 	fmt.Fprintf(os.Stderr, "extract: "+f+"\n", a...)
 	os.Exit(2)
+}
+
+// runGroup runs one table group; a declaration that is not found in the expected shape (or any
+// other failure inside the group) is returned instead of ending the run.
+func runGroup(t tableFunc, e *emitter, root string, isRoot bool) (err error) {
+	inGroup = true
+	defer func() {
+		inGroup = false
+		if r := recover(); r != nil {
+			err = fmt.Errorf("%v", r)
+		}
+	}()
+	t.f(e, root, isRoot)
+	return nil
 }
 
 func loadPkg(dir string) *pkg {
@@ -266,7 +289,21 @@ func main() {
 	out := flag.String("out", "", "output Lean file (Gen/Tables.lean)")
 	fpOut := flag.String("fingerprints", "", "output fingerprints json")
 	mapFile := flag.String("model-map", "", "directory of model-map json files: modelled Go functions")
+	groupsBase := flag.String("groups-baseline", "", "json of the table text per module/group at the baseline: used, and reported, when a group can no longer be extracted")
+	groupsOut := flag.String("groups-out", "", "write the table text per module/group (the baseline file)")
+	statusOut := flag.String("status", "", "write which groups fell back to the baseline, and why")
 	flag.Parse()
+
+	baseline := map[string]string{}
+	if *groupsBase != "" {
+		if data, err := os.ReadFile(*groupsBase); err == nil {
+			if err := json.Unmarshal(data, &baseline); err != nil {
+				fatalf("groups baseline %s: %v", *groupsBase, err)
+			}
+		}
+	}
+	fresh := map[string]string{}
+	failed := map[string]string{}
 
 	e := &emitter{}
 	e.f("-- GENERATED by tools/extract from the working tree of %s — do not edit.", *repo)
@@ -274,9 +311,36 @@ func main() {
 	for _, mod := range []struct{ ns, dir string }{{"Restli.Gen", "v2"}, {"Restli.GenRoot", "."}} {
 		e.f("namespace %s", mod.ns)
 		for _, t := range tableFuncs {
-			t.f(e, filepath.Join(*repo, mod.dir), mod.dir == ".")
+			key := mod.dir + "/" + t.name
+			sub := &emitter{}
+			err := runGroup(t, sub, filepath.Join(*repo, mod.dir), mod.dir == ".")
+			if err == nil {
+				fresh[key] = sub.b.String()
+				e.b.WriteString(sub.b.String())
+				continue
+			}
+			// the tie of this group to the source is broken: the properties that rest on it report
+			// that (bin/check); everything else keeps building against the last extracted tables
+			fb, ok := baseline[key]
+			if !ok || *statusOut == "" {
+				fatalf("%s: %v", key, err)
+			}
+			failed[key] = err.Error()
+			e.f("-- STALE: group %s could not be extracted from the working tree; tables as of the baseline", key)
+			e.b.WriteString(fb)
 		}
 		e.f("end %s", mod.ns)
+	}
+	if *statusOut != "" {
+		js, _ := json.MarshalIndent(map[string]any{"failed": failed}, "", " ")
+		writeIfChanged(*statusOut, string(js)+"\n")
+	}
+	if *groupsOut != "" {
+		if len(failed) > 0 {
+			fatalf("cannot record a baseline while groups fail: %v", failed)
+		}
+		js, _ := json.MarshalIndent(fresh, "", " ")
+		writeIfChanged(*groupsOut, string(js)+"\n")
 	}
 	if *out != "" {
 		writeIfChanged(*out, e.b.String())
